@@ -149,13 +149,15 @@ func genVals(r *simcore.Rand) []HB {
 	vals := make([]HB, n)
 	for i := range vals {
 		var l int
-		switch r.Pick(4, 3, 3) {
+		switch r.Pick(4, 3, 3, 3) {
 		case 0:
 			l = r.Range(1, 4) // embedded leaves
 		case 1:
 			l = r.Range(20, 31)
-		default:
+		case 2:
 			l = r.Range(32, 70)
+		default:
+			l = r.Range(301, 600) // beyond the stack trie's pooled value buffers (300 bytes)
 		}
 		vals[i] = r.Bytes(l)
 		if vals[i][0] == 0 && r.Bool(0.5) {
@@ -536,10 +538,8 @@ func (w *world06) checkRoot(where string, got common.Hash) *simcore.Violation {
 	kvs := w.m.kvs()
 	if prefixFree(kvs) {
 		st := trie.NewStackTrie(nil)
-		for _, kv := range kvs {
-			if err := st.Update(kv.K, kv.V); err != nil {
-				return simcore.Violf("stacktrie-update", "%s: StackTrie.Update(%x) failed: %v", where, kv.K, err)
-			}
+		if k, err := feedStack(st, kvs); err != nil {
+			return simcore.Violf("stacktrie-update", "%s: StackTrie.Update(%x) failed: %v", where, k, err)
 		}
 		if sh := st.Hash(); sh != want {
 			return simcore.Violf("stacktrie-root-mismatch", "%s: StackTrie root %x, root of the key/value set %x (%d entries)", where, sh, want, len(kvs))
